@@ -194,36 +194,41 @@ Print Assumptions ufunc_linear_flag_correct.
    gradient rules compute at x:   d |-> <d, fgrad w f x>_w   is the
    Frechet/Hadamard derivative of f at x, at every regular point (x <> 0 for
    L2Norm, no zero entry for L1Norm, divisor <> 0).
-   [fok w f]: every composition with a MatrixOperator is between UNWEIGHTED spaces
-   (its adjoint is the plain transpose; on weighted spaces the statement is
-   false -- recorded finding FunctionalComp-MatrixOperator-weighted-space), and
-   RosenbrockFunctional only occurs on unweighted spaces (second finding below).
+   Variant switches (measured on the code at run time, FModel): rzv = RosenbrockFunctional
+   divides its partial derivatives by the weights (proposed repair) / does not
+   (current source); mav = MatrixOperator.adjoint is the true adjoint between
+   weighted spaces (repair asked of C05) / the plain transpose (current source).
+   [fok rzv mav w f]: with the CURRENT source (false, false) every composition with a
+   MatrixOperator must be between UNWEIGHTED spaces and RosenbrockFunctional must
+   live on an unweighted space -- otherwise the statement is false (the two
+   recorded findings, refuted below); with the repaired variants only non-zero
+   weights are required.
    [sdiff n phi x ell]: along every differentiable curve g through x with
    velocity d,  t |-> phi (g t)  has derivative  ell d  at 0. *)
 Theorem functional_gradient_is_derivative :
-  forall (f : @fexpr R) (w x : list R),
-  fwt f = true -> fok w f = true -> length w = fdim f -> length x = fdim f -> fregular w f x ->
-  sdiff (fdim f) (feval sqrt w f) x (fun d => wdot w d (fgrad sqrt w f x)).
+  forall (rzv mav : bool) (f : @fexpr R) (w x : list R),
+  fwt f = true -> fok rzv mav w f = true -> length w = fdim f -> length x = fdim f -> fregular w f x ->
+  sdiff (fdim f) (feval sqrt w f) x (fun d => wdot w d (fgrad sqrt rzv mav w f x)).
 Proof. exact fgrad_sound. Qed.
 Print Assumptions functional_gradient_is_derivative.
 
 Theorem functional_derivative_is_frechet :
-  forall (f : @fexpr R) (w x : list R),
-  fwt f = true -> fok w f = true -> length w = fdim f -> length x = fdim f -> fregular w f x ->
-  hdiff (fdim f) 1 (fun y => [feval sqrt w f y]) x (fun d => [wdot w d (fgrad sqrt w f x)]).
+  forall (rzv mav : bool) (f : @fexpr R) (w x : list R),
+  fwt f = true -> fok rzv mav w f = true -> length w = fdim f -> length x = fdim f -> fregular w f x ->
+  hdiff (fdim f) 1 (fun y => [feval sqrt w f y]) x (fun d => [wdot w d (fgrad sqrt rzv mav w f x)]).
 Proof. exact functional_derivative_sound. Qed.
 Print Assumptions functional_derivative_is_frechet.
 
 (* The unrestricted statement (drop [fok w f]) is FALSE of the faithful model -- the recorded
    finding FunctionalComp-MatrixOperator-weighted-space:
      forall f w x, fwt f = true -> length w = fdim f -> length x = fdim f -> fregular w f x ->
-       sdiff (fdim f) (feval sqrt w f) x (fun d => wdot w d (fgrad sqrt w f x)).
+       sdiff (fdim f) (feval sqrt w f) x (fun d => wdot w d (fgrad sqrt false false w f x)).
    Witness: L2NormSquared(rn(1)) o MatrixOperator([[1]]) on rn(1, weighting=2) at x = 1
    (the code answers 4 d, the derivative is 2 d).  The theorem above is the partial
    statement with the exact precondition. *)
 Theorem functional_gradient_weighted_composition_refuted :
   fwt bad_f = true /\ length [2] = fdim bad_f /\ fregular [2] bad_f [1] /\
-  ~ sdiff (fdim bad_f) (feval sqrt [2] bad_f) [1] (fun d => wdot [2] d (fgrad sqrt [2] bad_f [1])).
+  ~ sdiff (fdim bad_f) (feval sqrt [2] bad_f) [1] (fun d => wdot [2] d (fgrad sqrt false false [2] bad_f [1])).
 Proof. exact fgrad_weighted_comp_refuted. Qed.
 Print Assumptions functional_gradient_weighted_composition_refuted.
 
@@ -232,15 +237,15 @@ Print Assumptions functional_gradient_weighted_composition_refuted.
    (finding RosenbrockFunctional-weighted-space). *)
 Theorem rosenbrock_weighted_refuted :
   fwt bad_r = true /\ length [2; 2] = fdim bad_r /\ fregular [2; 2] bad_r [0; 0] /\
-  ~ sdiff (fdim bad_r) (feval sqrt [2; 2] bad_r) [0; 0] (fun d => wdot [2; 2] d (fgrad sqrt [2; 2] bad_r [0; 0])).
+  ~ sdiff (fdim bad_r) (feval sqrt [2; 2] bad_r) [0; 0] (fun d => wdot [2; 2] d (fgrad sqrt false false [2; 2] bad_r [0; 0])).
 Proof. exact rosen_weighted_refuted. Qed.
 Print Assumptions rosenbrock_weighted_refuted.
 
 (* a weighted example without composition, and an unweighted one with a matrix composition *)
 Example functional_premises_hold :
-  (fwt ex_f = true /\ fok [2; 3] ex_f = true /\ length [2; 3] = fdim ex_f /\ length [1; 2] = fdim ex_f /\
+  (fwt ex_f = true /\ fok false false [2; 3] ex_f = true /\ length [2; 3] = fdim ex_f /\ length [1; 2] = fdim ex_f /\
    fregular [2; 3] ex_f [1; 2]) /\
-  (fwt ex_g = true /\ fok [1; 1] ex_g = true /\ fregular [1; 1] ex_g [1; 2]).
+  (fwt ex_g = true /\ fok false false [1; 1] ex_g = true /\ fregular [1; 1] ex_g [1; 2]).
 Proof. exact ex_f_premises. Qed.
 
 (* ---- the premise on user-defined leaves is satisfiable: the harness's own
